@@ -338,7 +338,7 @@ func Stateless(p *core.Prog, r *core.Report) {
 	}
 	all := append(writes, collectCalls()...)
 	r.Count("validator_state_writes", len(all))
-	r.Floor("validator_state_writes", 30)
+	r.Floor("validator_state_writes", 25)
 	var mnames []string
 	for f := range mutatesRecv {
 		mnames = append(mnames, core.FuncName(f))
